@@ -92,6 +92,10 @@ def build_app(variant=0):
     if variant == 1:
         app.keep_blank_values = 1
         app.auto_form = True
+    if variant in (1, 4):
+        # applications configure their own route filters: a redefined built-in and a filter of their own
+        app.set_filter("int", r"\d\d", int)
+        app.set_filter("tag", r"[a-z]+", str.upper)
 
     def point(req, name):
         fn = req.environ.get("verif.point")
@@ -374,6 +378,8 @@ def canon_body(body, app):
     text = text.replace(app.name, "APPNAME")
     text = re.sub(r"0x[0-9a-f]{6,}", "0xADDR", text)
     text = re.sub(r"verif_c17_\d+_\d+", "APPNAME", text)
+    text = re.sub(r"/tmp/verif_c17_\w+", "DOCROOT", text)       # the sandbox directory differs between processes
+    text = re.sub(r"\d\d-[A-Z][a-z]{2}-\d{4} \d\d:\d\d", "DATE", text)   # ... and so do the times of its files
     return text
 
 
@@ -381,6 +387,8 @@ def canon_headers(headers, app):
     out = []
     for k, v in headers:
         v = v.replace(app.name, "APPNAME")
+        if k == "Last-Modified":
+            v = "DATE"
         out.append((k, v))
     return sorted(out)
 
@@ -417,10 +425,42 @@ def run_request(app, kind, pointfn=None):
 _solo = {}
 
 
+def _tuplify(x):
+    return tuple(_tuplify(y) for y in x) if isinstance(x, (list, tuple)) else x
+
+
+def solo_table(variant):
+    """answers of one freshly built application per request kind, computed in a fresh interpreter in which no other
+    application was ever built (what another application leaves behind *at build time* must not matter either)"""
+    import json
+    import subprocess
+    code = ("import sys, json; sys.path.insert(0, %r); sys.path.insert(0, '/repo'); from harness import c17; "
+            "s = c17.frozen(); print('TABLE ' + json.dumps({k: c17.run_request(c17.build_app(%d), k) for k in c17.KIND_NAMES}))"
+            % (os.path.dirname(HERE), variant))
+    out = subprocess.run([sys.executable, "-c", code], capture_output=True, text=True, timeout=300,
+                         env=dict(os.environ, VERIF_C17_CHILD="1")).stdout
+    for line in out.splitlines():
+        if line.startswith("TABLE "):
+            return {k: _tuplify(v) for k, v in json.loads(line[6:]).items()}
+    raise RuntimeError("no reference answers for variant %d: %s" % (variant, out[-300:]))
+
+
+_tables = {}
+
+
 def solo(kind, variant):
     """the answer of a fresh, identically configured application"""
     key = (kind, variant)
     if key not in _solo:
+        if not os.environ.get("VERIF_C17_CHILD"):
+            if variant not in _tables:
+                try:
+                    _tables[variant] = solo_table(variant)
+                except Exception:
+                    _tables[variant] = None
+            if _tables[variant] is not None and kind in _tables[variant]:
+                _solo[key] = _tables[variant][kind]
+                return _solo[key]
         saved = frozen()
         try:
             _solo[key] = run_request(build_app(variant), kind)
@@ -632,6 +672,7 @@ _frame_failures = {}
 
 
 def compare(case, got, want, what):
+    got, want = (_tuplify(got) if got is not None else None), _tuplify(want)
     if got == want:
         return None
     if got is None:
